@@ -473,9 +473,10 @@ def gen_calls(rng, tier):
         # ---- __call__, one output
         for kind in kinds:
             for uname in list(UOPS) + list(BOPS) + ['oracle1', 'oracle2']:
-                for outk in ['none', 'none1', 'same', 'arr', 'tens', 'alias', 'f32', 'dtkw', 'dtkw_out', 'grow']:
+                for outk in ['none', 'none1', 'same', 'arr', 'tens', 'alias', 'f32', 'dtkw', 'dtkw_out', 'dtkw_out_int',
+                             'out_int', 'grow']:
                     dtype = rng.choice(dtypes)
-                    if uname in ('oracle1', 'oracle2') or outk in ('f32', 'dtkw', 'dtkw_out'):
+                    if uname in ('oracle1', 'oracle2') or outk in ('f32', 'dtkw', 'dtkw_out', 'dtkw_out_int', 'out_int'):
                         dtype = 'float64'
                     if np.dtype(dtype).kind == 'c' and uname in ('sign', 'maximum', 'minimum'):
                         dtype = 'float64'
@@ -520,6 +521,14 @@ def gen_calls(rng, tier):
                         kw['dtype'] = rng.choice(['float32', 'float64'])
                         outs = [respace(rng, x, bufs, rng.choice([kind, 'arr', 'tens']),
                                         dtype=rng.choice(['float32', 'float64']))]
+                    elif outk in ('dtkw_out_int', 'out_int'):
+                        # an integer out container for a float computation: NumPy refuses the
+                        # same_kind cast; with dtype= ODL goes through writable_array's copy
+                        if uname.startswith('oracle'):
+                            continue
+                        if outk == 'dtkw_out_int':
+                            kw['dtype'] = 'float64'
+                        outs = [respace(rng, x, bufs, rng.choice([kind, 'arr']), dtype='int64')]
                     elif outk == 'grow':
                         if uf.nin != 2:
                             continue
